@@ -13,7 +13,7 @@ THEOREMS = [("PdfV.Properties.C12", n) for n in
             ["C12_invisible", "C12_order_independent", "C12_get_is_denotation", "C12_cyclic_refuted",
              "C12_a_refuted_before_fix", "C12_b_refuted_before_fix", "C12_split_table", "C12_codecs_table",
              "C12_typed_get_any_history", "C12_error_entries_irrelevant", "C12_value_entries_typed",
-             "C12_stream_entries_full", "C12_partial_decode"]]
+             "C12_stream_entries_full", "C12_partial_decode", "C12_serving_cached_errors_refuted"]]
 ANCHORS = ["types.rs:ImageXObject::raw_image_data", "file.rs:StorageResolver"]
 MODES = ["cache_history"]
 TRUSTED_BASE = ["coqc 8.16.1 kernel (vm_compute for table lemmas and witnesses; no native_compute)",
